@@ -1,10 +1,81 @@
-import GoatSpec.MarkSpec
-import GoatSpec.Splice
-/-! # C01 — property theorems (instrumenter family); see DESIGN.md §6 -/
+import GoatSpec.Properties.C09
+import GoatSpec.Proofs.Splice
+/-! # C01 — goat track succeeds and the instrumented project still builds.
+
+Lean cannot prove that a Go program compiles (assumption A1, monitored end to end). What is
+proved is the part that is goat's own logic: the scope builders are total on body-less
+declarations (after the fix of D-C01-1), `count` agrees with the recorded positions for every
+event list, the first splice pass writes exactly one block per position, and the second pass
+honours at most one position per line — with concrete witnesses of the recorded defect
+D-C01-2 (two single-line literals on one line: one block dropped, or a slice-bounds panic).
+Legality of every position (a statement boundary of a multi-line function body, outside
+comments) is the predicate `MarkSpec.legalReasons`, judged on every implementation answer of
+the streams. -/
 namespace GoatSpec.C01
 open GoatSpec
 
-/-- placeholder obligation replaced below by the real theorems of this property -/
-theorem blockHeight_eq : blockHeight = 4 := rfl
+/-- body-less declarations no longer make the scope builders fail: for every declaration list
+    `funcNodes` returns a result (D-C01-1 fixed; before the fix the first body-less FuncDecl
+    was a nil dereference) -/
+theorem scopes_total (ds : List Decl) : (funcNodes ds).isSome = true := by
+  induction ds with
+  | nil => rfl
+  | cons d r ih =>
+    cases d with
+    | funcDecl body =>
+      cases body with
+      | none => simpa [funcNodes] using ih
+      | some b =>
+        obtain ⟨lb, rb, first, stmts⟩ := b
+        simp only [funcNodes, Option.isSome_map]; exact ih
+    | genDecl vs => simp only [funcNodes, Option.isSome_map]; exact ih
+
+theorem functionScopes_total (f : File) : (functionScopes f).isSome = true := by
+  simp only [functionScopes, Option.isSome_map]; exact scopes_total f.decls
+
+/-- `count` = number of recorded positions, for every event list (so `replaceTracks` finds as
+    many placeholders as `Count()` reports whenever every recorded position gets its block) -/
+theorem count_is_positions (env : Env) (evs : List Ev) (st : MState) (h : runEvents env evs = .ok st) :
+    st.count = st.multi.length + st.singles.length :=
+  (C09.points_distinct_and_placed env evs st h).2.2.2
+
+/-- first pass: one block per multi-line position inside the file, nothing else changes length -/
+theorem pass1_writes_all {α : Type} (block src : List α) (ps : List Nat) (h : Incr 1 ps)
+    (hn : ∀ p ∈ ps, p ≤ src.length) :
+    (pass1 block 0 src ps).length = src.length + block.length * ps.length := by
+  rw [pass1_eq_spec1 block 0 src ps h]
+  exact spec1_length block 0 src ps h (by simpa using hn)
+
+/-- second pass honours at most the given positions -/
+theorem pass2Count_le (i : Nat) (lens : List Nat) (ps : List (Nat × Nat)) (n : Nat)
+    (h : pass2Count i lens ps = some n) : n ≤ ps.length := by
+  induction lens generalizing i ps n with
+  | nil => cases ps <;> simp [pass2Count] at h <;> omega
+  | cons s rest ih =>
+    cases ps with
+    | nil => simp [pass2Count] at h; omega
+    | cons p ps =>
+      obtain ⟨l, c⟩ := p
+      simp only [pass2Count] at h
+      split at h
+      · split at h
+        · cases hr : pass2Count (i+1) rest ps with
+          | none => simp [hr] at h
+          | some r => simp [hr] at h; have := ih (i+1) ps r hr; simp; omega
+        · cases h
+      · exact ih (i+1) _ n h
+
+/-- *witness* (D-C01-2): two single-line literals on one line — only one block is written
+    although `count` is 2, so `replaceTracks` reports expected≠actual and track fails -/
+theorem two_singles_one_dropped : pass2Count 0 [60] [(1, 14), (1, 40)] = some 1 := by decide
+
+/-- *witness* (D-C01-2): with a multi-line position above, the second position is shifted onto a
+    later, shorter line and `src[:column]` panics (slice bounds out of range) -/
+theorem two_singles_panic :
+    writtenBlocks [17, 60, 20, 12] [10, 60, 3, 0] [1, 3] [(2, 14), (2, 40)] = none := by decide
+
+/-- non-vacuity: a file with a body-less declaration and a function with a body -/
+example : functionScopes ⟨1, 9, #[0,0,0,0,0,0,0,0,0,1], #[], [.funcDecl none,
+    .funcDecl (some (3, 8, some (4, 2), []))]⟩ = some [(1, 9), (3, 8)] := by decide
 
 end GoatSpec.C01
